@@ -505,7 +505,14 @@ fn cmd_run(get: &dyn Fn(&str) -> Option<String>) -> i32 {
                     ok = false;
                 }
             }
-            if !ok {
+            if !ok && prop == "C20" {
+                let fv2 = Violation { clause: "outcome_not_reproducible".into(), sig: "outcome_not_reproducible".into(), detail: format!("the minimised run does not give the same outcome twice; first outcome: {}", fv.detail.chars().take(300).collect::<String>()), ..fv.clone() };
+                let path = write_replay(&replay_dir, &prop, &config, &min_run, &fv2, run.ops.len(), execs);
+                println!("violation: {} {} {}: {}", fv2.property, fv2.clause, fv2.kind, fv2.detail);
+                println!("VIOLATION property={} replay={}", prop, path);
+                violation_json = json!({"violation": fv2.to_json(), "replay": path, "seed": run.seed});
+                exit = 1;
+            } else if !ok {
                 eprintln!("HARNESS ERROR: minimised run does not replay deterministically");
                 exit = 2;
             } else {
